@@ -38,9 +38,26 @@ TOKEN_TYPES = ["Doctype", "Characters", "SpaceCharacters", "StartTag", "EndTag",
                "Entity", "SerializeError", FRESH]
 
 
-def decision_table(ctx, func, with_previous, extra_next=()):
-    """-> {(tagname, next_type, next_name, prev): value} for all abstract inputs."""
+def _data_param(ctx, func):
+    """name of a parameter of the omission predicate that Filter.__iter__ binds to the current token's attributes, if any"""
+    it = ctx.repo.func("filters/optionaltags.py", "Filter.__iter__")
+    for c in ast.walk(it.node):
+        if isinstance(c, ast.Call) and isinstance(c.func, ast.Attribute) and c.func.attr == func.name:
+            params = func.params()[1:]
+            for i, a in enumerate(c.args):
+                if i < len(params) and norm(a).endswith("['data']"):
+                    return params[i]
+            for k in c.keywords:
+                if norm(k.value).endswith("['data']"):
+                    return k.arg
+    return None
+
+
+def decision_table(ctx, func, with_previous, extra_next=(), attributes=None):
+    """-> {(tagname, next_type, next_name, prev): value} for all abstract inputs.  `attributes`: value bound to the parameter
+    that receives the token's attributes (if the predicate has one)."""
     ce = ctx.ce
+    data_param = _data_param(ctx, func)
     doms = domains_by_scrutinee([func.node], const_of=lambda n: ce.try_eval(n, func.module) if isinstance(n, ast.Name) else None)
     known = {"tagname", "next['name']", "previous['name']", "type", "previous['type']", "next['type']"}
     if set(doms) - known:
@@ -72,6 +89,8 @@ def decision_table(ctx, func, with_previous, extra_next=()):
                 env = {"tagname": tag, "next": nx, "self": Opaque("self")}
                 if with_previous:
                     env["previous"] = pv
+                if data_param:
+                    env[data_param] = attributes if attributes is not None else {}
                 if set(params[1:]) - set(env):
                     raise AnalysisError("%s: unexpected parameters %s" % (func.fq, params))
                 out = interp.run(func.node.body, env)
@@ -95,6 +114,17 @@ def tables(ctx):
         ne, te = decision_table(ctx, fe, False, extra)
         return fs, fe, ns, ts, ne, te
     return ctx.shared("c13.tables", build)
+
+
+def start_table_with_attributes(ctx):
+    """the start-tag decision table for a tag that carries attributes (None if the predicate is not told about them)"""
+    def build():
+        fs = ctx.repo.func("filters/optionaltags.py", "Filter.is_optional_start")
+        if _data_param(ctx, fs) is None:
+            return None
+        from .c03 import model
+        return decision_table(ctx, fs, True, model(ctx).table_names, attributes={(None, "a"): "b"})[1]
+    return ctx.shared("c13.tables_attr", build)
 
 
 def run(ctx):
@@ -182,10 +212,14 @@ def run(ctx):
             raise AnalysisError("unexpected call %s" % norm(node))
         return NotImplemented
     interp = MiniInterp(ctx.ce, it.module, expr_hook=expr_hook)
+    tab_attr = start_table_with_attributes(ctx)
+    omitted_with_attrs = sorted({k[0] for k, v in tab_attr.items() if v}) if tab_attr is not None else None
     for ty in TOKEN_TYPES:
         for data in ({}, {(None, "a"): "b"}):
             for os_ in (True, False):
                 for oe in (True, False):
+                    if data and os_ and omitted_with_attrs == []:
+                        continue        # the predicate is told about the attributes and never approves a tag that has some
                     tok = {"type": ty, "name": "x", "data": data}
                     env = {tok_name: tok, pv_name: None, nx_name: None, "self": Opaque("self"),
                            "__is_optional_start": os_, "__is_optional_end": oe}
@@ -199,7 +233,9 @@ def run(ctx):
                     if len(ys) == 0:
                         r.check("R13.3", may_drop, key, it.where,
                                 "a %s token (attributes: %s) is dropped although it is not an approved attribute-less "
-                                "start tag / end tag" % (ty, bool(data)), {"path": out.path})
+                                "start tag / end tag%s" % (ty, bool(data), (" (start tags approved in spite of attributes: %s)" %
+                                                                           [("<other>" if t == FRESH else t) for t in omitted_with_attrs][:8])
+                                                          if (data and omitted_with_attrs) else ""), {"path": out.path})
                     elif len(ys) == 1:
                         r.ok("R13.3", key, it.where, detail={"yielded": 1, "may_drop": may_drop})
                     else:
